@@ -302,13 +302,29 @@ def run_list_case(case, tier, prop):
             assume(t.t >= 1)
             pac = SymBool(z3.Bool("perform_amortized_computation"))
             step_t = SymTensor.int_scalar(t)
-            c["lst"].update_preconditioners(masked_grad_list=(G,), step=step_t, perform_amortized_computation=pac)
+            from vlib.tensor import compile_mode
+            # C18: update_preconditioners is traced by PT2 (is_compiling answers symbolically; inside torch.compiler.disable'd callees it
+            # answers False, as at run time); precondition is called from DistributedShampoo._precondition_and_grafting, which runs eagerly
+            # iff it is (still) compiler-disabled and the only caller — decided on the current source by c18.precondition_runs_eagerly().
+            with compile_mode("sym" if prop == "C18" else None):
+                c["lst"].update_preconditioners(masked_grad_list=(G,), step=step_t, perform_amortized_computation=pac)
             kf = c["lst"]._local_kronecker_factors_list[0]
             post_upd = dict(L=[x.v for x in kf.factor_matrices],
                             X=[x.v for x in (kf.inv_factor_matrices if kind == "shampoo" else kf.factor_matrices_eigenvectors)],
                             bc2=c["lst"]._bias_correction2.at(0),
                             C=(kf.corrected_eigenvalues.v if kind != "shampoo" else None))
-            res = c["lst"].precondition((Gh,))
+            pmode = None
+            if prop == "C18":
+                from checks import c18
+                pmode = None if c18.precondition_runs_eagerly() else "sym"
+            with compile_mode(pmode):
+                res = c["lst"].precondition((Gh,))
+            if prop == "C18":
+                # step granularity: the state is observed where a step ends (after precondition), not between the two calls
+                post_upd = dict(L=[x.v for x in kf.factor_matrices],
+                                X=[x.v for x in (kf.inv_factor_matrices if kind == "shampoo" else kf.factor_matrices_eigenvectors)],
+                                bc2=c["lst"]._bias_correction2.at(0),
+                                C=(kf.corrected_eigenvalues.v if kind != "shampoo" else None))
             return dict(c=c, init=init, G=G, Gh=Gh, t=t, pac=pac, post=post_upd, res=res, override=override,
                         frame=(G.cell.version, Gh.cell.version, c["blocks"][0].cell.version), Gh_v=Gh.v)
         finally:
